@@ -393,73 +393,95 @@ Proof.
 Qed.
 
 (* ---- logged status and size are what the client got ----------------------------------------- *)
+(* the recorder and the writer below it agree: same byte count, and either both have committed
+   the same status or neither has (the recorder then still holds its default 200) *)
 Definition consistent (s : uw * rec) : Prop :=
   u_size (fst s) = r_size (snd s) /\
-  (u_status (fst s) = Some (r_status (snd s)) \/ (u_status (fst s) = None /\ r_status (snd s) = 200%Z)).
+  ((u_status (fst s) = Some (r_status (snd s)) /\ r_wrote (snd s) = true) \/
+   (u_status (fst s) = None /\ r_status (snd s) = 200%Z /\ r_wrote (snd s) = false)).
 
 Lemma consistent_client s : consistent s ->
   client_status (fst s) = r_status (snd s) /\ u_size (fst s) = r_size (snd s).
 Proof.
-  intros [Hs [Hc|[Hc H2]]]; split; try exact Hs; unfold client_status; rewrite Hc; [reflexivity|].
+  intros [Hs [[Hc _]|[Hc [H2 _]]]]; split; try exact Hs; unfold client_status; rewrite Hc; [reflexivity|].
   symmetry. exact H2.
 Qed.
 
-Lemma step_ow_consistent c s len fail :
-  w_head c = false -> consistent s -> consistent (step c s (OW len fail)).
-Proof.
-  intros Hh [Hs Hc]. destruct s as [u r]. simpl in *. unfold uw_write.
-  assert (H1 : u_size (uw_wh u 200) = r_size r /\ u_status (uw_wh u 200) = Some (r_status r)).
-  { unfold uw_wh. destruct Hc as [Hc|[Hc H2]]; rewrite Hc; simpl; [auto|]. rewrite H2. auto. }
-  destruct H1 as [H1 H2]. rewrite Hh, andb_false_r.
-  destruct (w_nethttp c && body_forbidden (client_status (uw_wh u 200))).
-  - split; simpl; [exact H1|left; exact H2].
-  - destruct fail as [k|]; split; simpl; try exact H1; try (left; exact H2). rewrite H1. reflexivity.
-Qed.
-
-Lemma step_owh_fresh c s code :
-  u_status (fst s) = None -> consistent s -> consistent (step c s (OWH code)).
-Proof.
-  intros Hn [Hs _]. destruct s as [u r]. simpl in *. unfold uw_wh. rewrite Hn.
-  split; simpl; [exact Hs|left; reflexivity].
-Qed.
-
-Lemma run_no_wh_consistent c : forall ops s,
-  w_head c = false -> no_wh ops = true -> consistent s -> consistent (fst (run c s ops)).
-Proof.
-  induction ops as [|o ops IH]; intros s Hh Hw Hc; [exact Hc|].
-  simpl in Hw. apply andb_true_iff in Hw as [Ho Hw].
-  destruct o as [code|len fail|]; try discriminate.
-  - simpl. apply IH; auto. apply step_ow_consistent; assumption.
-  - exact Hc.
-Qed.
-
 Lemma consistent_init : consistent (uw0, rec0).
-Proof. split; simpl; [reflexivity|right; split; reflexivity]. Qed.
+Proof. split; simpl; [reflexivity|right; repeat split; reflexivity]. Qed.
 
-Lemma run_wb_consistent c ops :
-  w_head c = false -> wb ops = true -> consistent (fst (run c (uw0, rec0) ops)).
+Lemma step_consistent c s o :
+  w_head c = false -> final_codes [o] = true -> consistent s -> consistent (step c s o).
 Proof.
-  intros Hh Hw. destruct ops as [|o ops]; [exact consistent_init|].
-  destruct o as [code|len fail|].
-  - simpl in Hw. simpl. apply run_no_wh_consistent; auto.
-    apply (step_owh_fresh c (uw0, rec0) code); [reflexivity|exact consistent_init].
-  - apply run_no_wh_consistent; auto. exact consistent_init.
-  - exact consistent_init.
+  intros Hh Hf [Hs Hc]. destruct s as [u r]. destruct o as [code|len fail|]; [| |split; assumption].
+  - simpl in Hf. rewrite andb_true_r in Hf. simpl in *. unfold uw_wh.
+    destruct Hc as [[Hc Hw]|[Hc [H2 Hw]]]; rewrite Hc, Hw; simpl.
+    + split; [exact Hs|left; split; assumption].
+    + rewrite Hf. simpl. split; [exact Hs|left; split; reflexivity].
+  - simpl in *. unfold uw_write.
+    assert (H1 : u_size (uw_wh u 200) = r_size r /\ u_status (uw_wh u 200) = Some (r_status r)).
+    { unfold uw_wh. destruct Hc as [[Hc _]|[Hc [H2 _]]]; rewrite Hc; simpl; [auto|]. rewrite H2. auto. }
+    destruct H1 as [H1 H2]. rewrite Hh, andb_false_r.
+    destruct (w_nethttp c && body_forbidden (client_status (uw_wh u 200))).
+    + split; simpl; [exact H1|left; split; [exact H2|reflexivity]].
+    + destruct fail as [k|]; split; simpl; try exact H1; try (left; split; [exact H2|reflexivity]).
+      rewrite H1. reflexivity.
+Qed.
+
+Lemma run_consistent c : forall ops s,
+  w_head c = false -> final_codes ops = true -> consistent s -> consistent (fst (run c s ops)).
+Proof.
+  induction ops as [|o ops IH]; intros s Hh Hf Hc; [exact Hc|].
+  simpl in Hf. apply andb_true_iff in Hf as [Ho Hf].
+  assert (Hs : consistent (step c s o)).
+  { apply step_consistent; auto. simpl. rewrite Ho. reflexivity. }
+  destruct o as [code|len fail|]; simpl; [apply IH; assumption|apply IH; assumption|exact Hc].
+Qed.
+
+Lemma final_codes_app a b : final_codes (a ++ b) = final_codes a && final_codes b.
+Proof. unfold final_codes. apply forallb_app. Qed.
+
+Lemma error_code_final ret : (400 <=? ret)%Z = true -> informational ret = false.
+Proof. intro H. unfold informational. apply Z.leb_le in H. destruct (ret <=? 199)%Z eqn:E; [apply Z.leb_le in E; lia|]. rewrite andb_false_r. reflexivity. Qed.
+
+Lemma err_ops_final tbl ek ret : (400 <=? ret)%Z = true -> final_codes (err_ops tbl ek ret) = true.
+Proof. intro H. simpl. rewrite (error_code_final ret H). reflexivity. Qed.
+
+(* whatever the handler does: either no line is written, or the middleware returns a status
+   below 400 (so that the server adds nothing) and every line carries the committed status and
+   the delivered byte count *)
+Lemma log_serve_lines c cs tbl ek rules path ops ret :
+  w_head c = false -> final_codes ops = true ->
+  let '(u', ret', p, lines) := log_serve c cs tbl ek rules path ops ret uw0 return Prop in
+  lines = [] \/
+  (p = false /\ (400 <=? ret')%Z = false /\
+   forall l, In l lines -> snd (fst l) = client_status u' /\ snd l = u_size u').
+Proof.
+  intros Hh Hf. unfold log_serve.
+  destruct (find (fun r => path_matches cs path (ru_scope r)) rules) as [r|].
+  - pose proof (run_consistent c ops (uw0, rec0) Hh Hf consistent_init) as Hc.
+    destruct (run c (uw0, rec0) ops) as [[u1 r1] p]. cbn [fst] in Hc.
+    destruct p; [left; reflexivity|].
+    destruct (400 <=? ret)%Z eqn:E.
+    + pose proof (run_consistent c (err_ops tbl ek ret) (u1, r1) Hh (err_ops_final tbl ek ret E) Hc) as Hc2.
+      destruct (run c (u1, r1) (err_ops tbl ek ret)) as [[u2 r2] p2]. cbn [fst] in *.
+      apply consistent_client in Hc2 as [H1 H2]. cbn [fst snd] in *.
+      right. split; [reflexivity|]. split; [reflexivity|].
+      intros l Hl. apply in_map_iff in Hl as [e [<- _]]. simpl. split; symmetry; assumption.
+    + apply consistent_client in Hc as [H1 H2]. cbn [fst snd] in *.
+      right. split; [reflexivity|]. split; [exact E|].
+      intros l Hl. apply in_map_iff in Hl as [e [<- _]]. simpl. split; symmetry; assumption.
+  - destruct (run c (uw0, rec0) ops) as [[u' r'] p]. left. reflexivity.
 Qed.
 
 Lemma logged_exact c cs tbl ek rules path ops ret :
-  w_head c = false -> no_panic ops = true -> wb (ops ++ fallback tbl ek ret) = true ->
+  w_head c = false -> final_codes ops = true ->
   let '(u', _, _, lines) := log_serve c cs tbl ek rules path ops ret uw0 return Prop in
   forall l, In l lines -> snd (fst l) = client_status u' /\ snd l = u_size u'.
 Proof.
-  intros Hh Hn Hw.
-  destruct (find (fun r => path_matches cs path (ru_scope r)) rules) as [r|] eqn:Hf.
-  - rewrite (log_serve_found c cs tbl ek rules path ops ret uw0 r Hf Hn).
-    pose proof (run_wb_consistent c _ Hh Hw) as Hc. apply consistent_client in Hc as [H1 H2].
-    intros l Hl. apply in_map_iff in Hl as [e [<- _]]. simpl. split; [symmetry; exact H1|symmetry; exact H2].
-  - pose proof (log_serve_not_found c cs tbl ek rules path ops ret uw0 Hf) as H.
-    destruct (log_serve c cs tbl ek rules path ops ret uw0) as [[[u' r'] p] lines]. simpl in H. subst lines.
-    intros l [].
+  intros Hh Hf. pose proof (log_serve_lines c cs tbl ek rules path ops ret Hh Hf) as H.
+  destruct (log_serve c cs tbl ek rules path ops ret uw0) as [[[u' r'] p] lines].
+  destruct H as [->|[_ [_ H]]]; [intros l []|exact H].
 Qed.
 
 (* ---- directive level: logParse ---------------------------------------------------------------- *)
@@ -586,26 +608,52 @@ Proof.
   destruct hdrw; [rewrite header_filter_no_panic|]; exact Hn.
 Qed.
 
+Lemma upto_panic_final : forall ops, final_codes ops = true -> final_codes (fst (upto_panic ops)) = true.
+Proof.
+  induction ops as [|o ops IH]; intro H; [reflexivity|].
+  simpl in H. apply andb_true_iff in H as [Ho H]. specialize (IH H).
+  destruct o; simpl; try reflexivity; destruct (upto_panic ops); simpl in *; rewrite ?Ho; exact IH.
+Qed.
+
+Lemma errors_flat_final tbl ops ret : final_codes ops = true -> final_codes (fst (errors_flat tbl ops ret)) = true.
+Proof.
+  intro H. unfold errors_flat. pose proof (upto_panic_final ops H) as Ha.
+  destruct (upto_panic ops) as [a p]. simpl in Ha.
+  destruct p; [|destruct (400 <=? ret)%Z eqn:E]; cbn [fst]; rewrite ?final_codes_app, ?Ha; [reflexivity| |reflexivity].
+  rewrite (err_ops_final tbl 1 ret E). reflexivity.
+Qed.
+
+Lemma header_filter_final : forall ops w, final_codes ops = true -> final_codes (header_filter w ops) = true.
+Proof.
+  induction ops as [|o ops IH]; intros w H; [reflexivity|].
+  simpl in H. apply andb_true_iff in H as [Ho H].
+  destruct o as [code|len fail|]; simpl.
+  - destruct w; simpl; [|rewrite Ho]; apply IH; exact H.
+  - apply IH. exact H.
+  - apply IH. exact H.
+Qed.
+
+Lemma inner_flat_final tbl (haserr hdrw : bool) ops ret :
+  final_codes ops = true -> final_codes (fst (inner_flat tbl haserr hdrw ops ret)) = true.
+Proof.
+  intro H. unfold inner_flat.
+  assert (Hn : final_codes (fst (if haserr then errors_flat tbl ops ret else (ops, ret))) = true).
+  { destruct haserr; [apply errors_flat_final|]; exact H. }
+  destruct (if haserr then errors_flat tbl ops ret else (ops, ret)) as [ops1 ret1]. simpl in *.
+  destruct hdrw; [apply header_filter_final|]; exact Hn.
+Qed.
+
 Lemma site_logged_exact c cs tbl (haserr hdrw : bool) ds path ops ret :
-  w_head c = false ->
-  let flat := inner_flat tbl haserr hdrw ops ret in
-  no_panic (fst flat) = true -> wb (fst flat ++ fallback tbl 1 (snd flat)) = true ->
+  w_head c = false -> final_codes ops = true ->
   let '(st, sz, lines) := site_serve c cs tbl haserr hdrw ds path ops ret return Prop in
   forall l, In l lines -> snd (fst l) = st /\ snd l = sz.
 Proof.
-  intros Hh. cbv zeta. unfold site_serve.
-  destruct (inner_flat tbl haserr hdrw ops ret) as [ops1 ret1]. cbn [fst snd].
-  intros Hn Hw.
-  pose proof (logged_exact c cs tbl 1 (parse_logs ds 0 []) path ops1 ret1 Hh Hn Hw) as H.
-  destruct (find (fun r => path_matches cs path (ru_scope r)) (parse_logs ds 0 [])) as [r|] eqn:Hf.
-  - rewrite (log_serve_found c cs tbl 1 _ path ops1 ret1 uw0 r Hf Hn) in *.
-    assert (Hr : (400 <=? (if (400 <=? ret1)%Z then 0%Z else ret1))%Z = false).
-    { destruct (400 <=? ret1)%Z eqn:E; [reflexivity|exact E]. }
-    rewrite Hr. exact H.
-  - pose proof (log_serve_not_found c cs tbl 1 _ path ops1 ret1 uw0 Hf) as Hl.
-    destruct (log_serve c cs tbl 1 (parse_logs ds 0 []) path ops1 ret1 uw0) as [[[u' r'] p] lines].
-    simpl in Hl. subst lines.
-    destruct p; [|destruct (400 <=? r')%Z]; intros l [].
+  intros Hh Hf. unfold site_serve.
+  pose proof (inner_flat_final tbl haserr hdrw ops ret Hf) as Hf1.
+  destruct (inner_flat tbl haserr hdrw ops ret) as [ops1 ret1]. cbn [fst] in Hf1.
+  pose proof (log_serve_lines c cs tbl 1 (parse_logs ds 0 []) path ops1 ret1 Hh Hf1) as H.
+  destruct (log_serve c cs tbl 1 (parse_logs ds 0 []) path ops1 ret1 uw0) as [[[u ret2] p] lines].
+  destruct H as [->|[-> [Hr H]]]; [intros l []|]. rewrite Hr. exact H.
 Qed.
 
 Lemma site_lines c cs tbl (haserr hdrw : bool) ds path ops ret :
@@ -626,41 +674,6 @@ Proof.
   intros Hu Hp. rewrite site_lines. cbv zeta.
   apply one_line_per_log_partial with (sc := sc); auto.
   apply inner_flat_no_panic. exact Hp.
-Qed.
-
-(* with a header directive in front of the handler the recorder sees at most one WriteHeader,
-   and only before the first Write: the writer contract holds for EVERY handler script *)
-Lemma header_filter_no_wh : forall ops, no_wh (header_filter true ops) = true.
-Proof.
-  induction ops as [|o ops IH]; [reflexivity|]. destruct o; simpl; exact IH.
-Qed.
-
-Lemma header_filter_wb ops : no_panic ops = true -> wb (header_filter false ops) = true.
-Proof.
-  destruct ops as [|o ops]; intro H; [reflexivity|].
-  destruct o as [code|len fail|]; simpl in *; try discriminate; apply header_filter_no_wh.
-Qed.
-
-Lemma errors_flat_fallback_nil tbl ops ret : fallback tbl 1 (snd (errors_flat tbl ops ret)) = [].
-Proof.
-  unfold errors_flat. destruct (upto_panic ops) as [a p].
-  destruct p; [reflexivity|]. destruct (400 <=? ret)%Z eqn:E; [reflexivity|].
-  simpl. unfold fallback. rewrite E. reflexivity.
-Qed.
-
-Lemma site_exact_with_errors_and_header c cs tbl ds path ops ret :
-  w_head c = false ->
-  let '(st, sz, lines) := site_serve c cs tbl true true ds path ops ret return Prop in
-  forall l, In l lines -> snd (fst l) = st /\ snd l = sz.
-Proof.
-  intro Hh.
-  pose proof (site_logged_exact c cs tbl true true ds path ops ret Hh) as H. cbv zeta in H.
-  apply H.
-  - apply inner_flat_no_panic. now left.
-  - unfold inner_flat. pose proof (errors_flat_no_panic tbl ops ret) as Hn.
-    pose proof (errors_flat_fallback_nil tbl ops ret) as Hf.
-    destruct (errors_flat tbl ops ret) as [ops1 ret1]. simpl in *. rewrite Hf, app_nil_r.
-    apply header_filter_wb. exact Hn.
 Qed.
 
 (* ---- escaping every brace of a text and expanding gives the text back ----------------------- *)
